@@ -22,21 +22,27 @@ P = {
          "Acceptance is a property of an unbounded string language; the monitor decides the strings it runs (millions per run, the complete 1-edit neighbourhood of hundreds of seed vectors). No claim beyond those.", "4/C07", TB),
  "C08": (True, "runtime monitor: string-language differential - every workload string at all three decoders against a reference recogniser written from the property text; workload = all valid vectors' covering family, every single-character edit at every position of seed vectors, closed token-edit catalogue, double edits, token-level exhaustive enumeration, random bytes",
          "Same as C07 for the canonical v2 language (group completeness, order, level).", "4/C08", TB),
- "C09": (False, "", "", "4/C09", TB),
- "C10": (False, "", "", "4/C10", TB),
+ "C09": (True, "runtime monitor: exported-field oracle (metric code -> library constant by name) + metamorphic equality of the full observation across token orders and X spelled/omitted, over the valid-side corpus",
+         "Every corpus vector (all base combinations x seeded optional subsets; all 73,629 v2 vectors +/- environmental group) is decoded at every admitting decoder in three spellings; fields are compared with the harness's own assignment and the full observation must not depend on the spelling.", "4/C09", TB),
+ "C10": (True, "runtime monitor: canonical-encoding oracle written from the specification order + decode(encode(x)) round-trip monitor over the valid-side corpus",
+         "Every corpus vector at every admitting decoder: Encode() text equals the harness's canonical string, String()==Encode(), and re-decoding the encoding reproduces fields, scores, severities and encoding.", "4/C10", TB),
  "C11": (True, "runtime monitor: errors.Is census over all 11 sentinels on every rejected workload string at all six decoders, against a reference defect classifier; sharp single-classified-edit catalogue per metric and position",
          "Every rejection observed must match exactly one sentinel, inside the set of defects the classifier finds; single-defect inputs (about 1 M per quick run) must report exactly their class. Evidence holds the class x sentinel matrix.", "4/C11", TB),
  "C12": (True, "runtime monitor: recover()-wrapped calls + process-crash detection over hostile inputs, nil receivers, fresh objects, objects left behind by failed decodes, single-field resets; assertion oracle on (object, error) shape and on error/zero-score of invalid objects",
          "All workload and hostile strings at all six decoders through both receivers; the observer sweep covers every observer method on every object state the quantifier names. One genuine defect found and fixed (nil-receiver IsEmpty).", "4/C12", TB),
  "C13": (True, "runtime monitor: relational oracle between two scores of the same decoded vector over the exhaustive domains",
          "Relations (ND-neutrality, TD:N => 0, temporal <= base) are checked on every vector of the finite domains (v2 TD:N on every sub-score key in quick, all 28 M in thorough); no spec oracle involved.", "4/C13", TB),
- "C14": (False, "", "", "4/C14", TB),
+ "C14": (True, "runtime monitor: differential between the views of a higher-level object and an independent lower-level decode of the projected token list",
+         "Every temporal/environmental corpus vector: BaseMetrics(), TemporalMetrics(), nested views and exported embedded objects must report what an independent lower-level decoder reports for the projection.", "4/C14", TB),
  "C15": (False, "", "", "4/C15", TB),
  "C16": (False, "", "", "4/C16", TB),
- "C17": (False, "", "", "4/C17", TB),
- "C18": (False, "", "", "4/C18", TB),
+ "C17": (True, "runtime monitor: reflection-enumerated report fields against the harness's wiring table (field -> metric/level/names function), all base vectors x levels x languages",
+         "Every exported field of the three report structs, including shadowed fields through embedded reports, is compared for every base vector with seeded extensions chosen so that neighbouring like-typed metrics differ (counted), in English, Japanese and other languages.", "4/C17", TB),
+ "C18": (True, "runtime monitor: exhaustive enumeration of the 52 names functions x enumeration integers x language tags with totality/injectivity/fallback oracles; registry completeness via go/parser",
+         "The whole finite domain of functions x values is executed for English and Japanese; the fallback is executed for 37 tags whose language is neither (incl. lookalike codes enm/jam/jv); regional variants are exercised but not judged.", "4/C18", TB),
  "C19": (False, "", "", "4/C19", TB),
- "C20": (False, "", "", "4/C20", TB),
+ "C20": (True, "runtime monitor: exhaustive per-metric table check (codes, constants by name, weights as identical float64, dependent weights) + all strings of length <= 3 as codes, lookups repeated for map-iteration nondeterminism",
+         "Finite tables: every code, every enumeration integer, every dependent-weight combination is executed; 'every other string' is covered by all alphanumeric strings up to length 3 (4 upper-case in thorough) plus adversarial ones.", "4/C20", TB),
 }
 checks, na = [], []
 for pid in sorted(P):
